@@ -60,6 +60,7 @@ type Ctx struct {
 	nFuncs    int
 	rangeMemo map[*ssa.Function][4]int64
 	rangeBusy map[*ssa.Function]bool
+	lenMemo   map[any][2]int64
 }
 
 type knownFinding struct {
